@@ -27,6 +27,7 @@ type Obligation struct {
 	Result  *SolveResult
 	Vars    map[string]string // model var name -> Go-level description
 	Serves  []string
+	Canary  bool // passes unless the solver proves unsat (vacuity guard); short timeout
 }
 
 type FuncCtx struct {
